@@ -66,9 +66,11 @@ func (p *Parser) rune() rune {
 		// p.r instead of b so that newline
 		// character positions don't have col 0.
 		p.line++
-		p.col = 0
+		// Not p.w, as an escaped "\r\n" newline is two bytes wide.
+		p.col = 1
+	} else {
+		p.col += int64(p.w)
 	}
-	p.col += int64(p.w)
 	bquotes := 0
 	if p.r == runeEOF {
 		// We stopped early, such as via [StopAt]; do not resume reading
